@@ -50,6 +50,8 @@ def spec_st(draw, max_n=7, min_workers=1):
         maxlength=draw(st.sampled_from([12, 40, 400])), allowmaxlength=draw(st.booleans()),
         delete_old=(dl := draw(st.sampled_from(["off", "on", "all"]))) != "off", delete_old_all=dl == "all",
         subcycles=subcycles, zeroswap=draw(st.sampled_from([None, None, 1.0, 0.0])),
+        # reporting options: what is printed / logged every `screen` steps, and the worker-pattern file
+        screen=draw(st.sampled_from([0, 0, 1, 3])), pattern=draw(st.sampled_from([False, False, True])),
     )
 
 
